@@ -1,4 +1,5 @@
 import RjModel.Lemmas.SyncLemmas
+import RjModel.Lemmas.FilteredListing
 import RjModel.Lemmas.DoerLemmas
 import RjModel.Lemmas.BossTraces
 import RjModel.Lemmas.ConfirmLemmas
@@ -234,5 +235,25 @@ theorem C02_sync_confined {vis : FPath → Bool} {fs0 : FS} {r : FPath} {ld : Li
       ∀ p, vis p = false → fs'.get (r ++ p) = fs0.get (r ++ p) := by
   obtain ⟨fs', h1, h2, -, -, h5⟩ := sync_mirror hw hs hsafe
   exact ⟨fs', h1, h2, h5⟩
+
+/-- **No run follows a link — successful or failing, with any filters**: for every destination tree, every source tree
+and every filter verdict (both listings holding exactly what the filters let through), the destination half of a sync
+ends `ok` or with an `err`or, never with `escape` (the outcome the file-system model gives whenever the kernel would pass
+through a symlink inside the tree).  No assumption about hidden entries: where `C01_mirror_filtered` needs `hsafe` to
+conclude success, this holds without it. -/
+theorem C02_sync_never_escapes {vis : FPath → Bool} {fs0 : FS} {r : FPath} {ld : List (FPath × Node)} {src : FPath → Option SEntry}
+    {ls : List (FPath × SEntry)} (hw : DestWF vis fs0 r ld) (hs : SrcWF vis src ls) :
+    syncDest fs0 r src ls ld ≠ .escape := by
+  rcases sync_never_escapes hw hs with ⟨fs', h⟩ | h <;> (rw [h]; intro e; cases e)
+
+/-- … stated on two trees with the model's own (filtered) listings: nothing is assumed but the shape of the trees -/
+theorem C02_never_escapes_two_trees (keep : FPath → Bool) (S D : FS) (rs rd : FPath) (fS fD : Nat)
+    (hS : SrcTreeOk S rs fS) (hD : D.Wf)
+    (hroot : D.get rd = some .folder) (hanc : ∀ k, k < rd.length → D.get (rd.take k) = some .folder)
+    (hclosed : ∀ p, p ≠ [] → D.get (rd ++ p) ≠ none → D.get (rd ++ p.dropLast) = some .folder)
+    (hfuel : ∀ p, D.get (rd ++ p) ≠ none → p.length ≤ fD) :
+    syncDest D rd (srcOfFS S rs) (lsOfFSF keep S rs fS)
+      ((listNodesF keep rd D fD rd).map fun e => (e.1.drop rd.length, e.2)) ≠ .escape :=
+  C02_sync_never_escapes (destWF_of_listNodesF keep D hD rd hroot hanc hclosed fD hfuel) (srcWF_of_treeF keep S rs fS hS)
 
 end Rj.C02
